@@ -447,6 +447,7 @@ type frame struct {
 	callBlock *ssa.BasicBlock  // and the block of the call instruction
 	priv      []privCell       // cells of locals that only this function writes (see privateCell)
 	callBindings []Val         // captured cells of the closure being called (consumed by applyContract)
+	pendingGo    []*ssa.Go     // fork/join model: goroutines that run at the next WaitGroup.Wait
 }
 
 // privCell: the heap cell of a local variable of the function under verification whose address is
